@@ -75,6 +75,39 @@ class TlcResult:
         return res
 
 
+def _balanced(s):
+    depth = 0
+    instr = False
+    i = 0
+    while i < len(s):
+        ch = s[i]
+        if instr:
+            if ch == "\\":
+                i += 1
+            elif ch == '"':
+                instr = False
+        elif ch == '"':
+            instr = True
+        elif ch in "<[{(":
+            if ch == "<" and not s.startswith("<<", i):
+                pass
+            elif ch == "<":
+                depth += 1
+                i += 1
+            else:
+                depth += 1
+        elif ch in ">]})":
+            if ch == ">" and not s.startswith(">>", i):
+                pass
+            elif ch == ">":
+                depth -= 1
+                i += 1
+            else:
+                depth -= 1
+        i += 1
+    return depth == 0
+
+
 def parse_tla(s):
     """Parse a printed TLA+ value consisting of tuples, sets, strings, ints, booleans, records."""
     pos = [0]
@@ -193,9 +226,20 @@ def run_tlc(pid, module, cfg=None, env=None, workers=8, timeout=600, simulate=No
     r.wall = time.time() - t0
     r.out = p.stdout
     shutil.rmtree(meta, ignore_errors=True)
+    acc = None
     for ln in p.stdout.splitlines():
+        if acc is not None:
+            acc.append(ln.strip())
+            joined = " ".join(acc)
+            if _balanced(joined):
+                r.printed.append(joined.replace("<< ", "<<", 1) if joined.startswith("<< ") else joined)
+                acc = None
+            continue
         if ln.startswith("<<") or ln.startswith('"'):
-            r.printed.append(ln)
+            if ln.startswith('"') or _balanced(ln):
+                r.printed.append(ln.replace("<< ", "<<", 1) if ln.startswith("<< ") else ln)
+            else:
+                acc = [ln.strip()]
         m = re.match(r"(\d+) states generated, (\d+) distinct states found", ln)
         if m:
             r.generated = int(m.group(1))
@@ -221,6 +265,19 @@ def run_tlc(pid, module, cfg=None, env=None, workers=8, timeout=600, simulate=No
         raise ToolError("TLC failed (%d) on %s:\n%s" % (p.returncode, cfg, tail))
     log("[tlc] %s: %d generated, %d distinct, %.1fs" % (cfg, r.generated, r.distinct, r.wall))
     return r
+
+
+def to_tla(v):
+    """Inverse of parse_tla (sets are printed back as sets of their list elements)."""
+    if isinstance(v, bool):
+        return "TRUE" if v else "FALSE"
+    if isinstance(v, int):
+        return str(v)
+    if isinstance(v, str):
+        return '"' + v.replace("\\", "\\\\").replace('"', '\\"') + '"'
+    if isinstance(v, dict):
+        return "[" + ", ".join("%s |-> %s" % (k, to_tla(x)) for k, x in v.items()) + "]"
+    return "<<" + ", ".join(to_tla(x) for x in v) + ">>"
 
 
 def json_lines_from_printed(printed):
